@@ -34,6 +34,13 @@ def selftest(pid):
         import random
         random.Random(seed).shuffle(pats)
     for p in pats:
+        mp = os.path.join(os.path.dirname(p), "meta.json")
+        if os.path.exists(mp):
+            m = json.load(open(mp))
+            if m.get("superseded") or m.get("not_caught_reason"):
+                # no longer (or never) a break of this property on the current tree, with the reason recorded by hand
+                out["mutants"].append({"patch": os.path.relpath(p, verif), "applied": False, "skipped": m.get("superseded") or m.get("not_caught_reason")})
+                continue
         r = subprocess.run([os.path.join(verif, "bin", "try-mutant"), p, pid], stdout=subprocess.PIPE, stderr=subprocess.STDOUT, text=True)
         keys = re.findall(r"key: (.*)", r.stdout)
         applied = "FAILED" not in r.stdout and "malformed" not in r.stdout
